@@ -287,13 +287,15 @@ open Print (digitsLE digitChar Base)
 
 /-! ## the token stream of a rendered token list -/
 
+/-- the token after a `joint` punct: a punct again, and not `#` (which could start a doc
+    comment) -/
+def nextPunct : List K → Bool
+  | .punct c _ :: _ => okPunct c && c != '#'
+  | _ => false
+
 /-- what the character-level proof needs of a token list: every identifier is plain, every
     punctuation character is one the printer uses, a `joint` punct is followed by a punct,
     there is no `lit`, and the delimiters are balanced against the stack -/
-def nextPunct : List K → Bool
-  | .punct c _ :: _ => okPunct c
-  | _ => false
-
 def chk : List Delim → List K → Option (List Delim)
   | st, [] => some st
   | st, k :: ks =>
@@ -439,7 +441,7 @@ theorem lexCore_render (ks : List K) :
             | nil => simp [nextPunct] at hnp
             | cons k' ks' =>
               cases k' with
-              | punct c' j' => exact ⟨c', j', ks', rfl, by simpa [nextPunct] using hnp⟩
+              | punct c' j' => exact ⟨c', j', ks', rfl, by simp [nextPunct] at hnp; exact hnp.1⟩
               | ident _ => simp [nextPunct] at hnp
               | int _ => simp [nextPunct] at hnp
               | str _ => simp [nextPunct] at hnp
@@ -509,9 +511,9 @@ theorem chk_punct (st : List Delim) (c : Char) (r : List K) (h : okPunct c = tru
     chk st (.punct c false :: r) = chk st r := by simp [chk, h]
 
 theorem chk_joint (st : List Delim) (c c' : Char) (j : Bool) (r : List K) (h : okPunct c = true)
-    (h' : okPunct c' = true) :
+    (h' : okPunct c' = true) (h'' : c' ≠ '#') :
     chk st (.punct c true :: .punct c' j :: r) = chk st (.punct c' j :: r) := by
-  simp [chk, h, nextPunct, h']
+  simp [chk, h, nextPunct, h', h'']
 
 theorem chk_int (st : List Delim) (v : Nat) (r : List K) : chk st (.int v :: r) = chk st r := by
   simp [chk]
@@ -552,11 +554,12 @@ theorem passes_punct {c : Char} (h : okPunct c = true) : Passes [.punct c false]
 theorem passes_int (v : Nat) : Passes [.int v] := fun st r => chk_int st v r
 theorem passes_str (s : String) : Passes [.str s] := fun st r => chk_str st s r
 
-theorem passes_joint2 {c c' : Char} (h : okPunct c = true) (h' : okPunct c' = true) :
+theorem passes_joint2 {c c' : Char} (h : okPunct c = true) (h' : okPunct c' = true)
+    (h'' : c' ≠ '#') :
     Passes [.punct c true, .punct c' false] := by
   intro st r
   simp only [List.cons_append, List.nil_append]
-  rw [chk_joint st c c' false r h h', chk_punct st c' r h']
+  rw [chk_joint st c c' false r h h' h'', chk_punct st c' r h']
 
 theorem passes_cons {k : K} {ks : List K} (hk : Passes [k]) (hks : Passes ks) : Passes (k :: ks) :=
   passes_append hk hks
@@ -670,7 +673,7 @@ theorem passes_pRet (r : Option G.Ty) (h : retOk r = true) : Passes (Print.pRet 
   | some t =>
     have : Print.pRet (some t) = [.punct '-' true, .punct '>' false] ++ Print.pTy t := rfl
     rw [this]
-    exact passes_append (passes_joint2 (by decide) (by decide)) (passes_pTy t h)
+    exact passes_append (passes_joint2 (by decide) (by decide) (by decide)) (passes_pTy t h)
 
 theorem passes_pFunc (tr : Bool) (f : G.Func) (h : funcOk f = true) : Passes (Print.pFunc tr f) := by
   simp only [funcOk, Bool.and_eq_true, List.all_eq_true] at h
@@ -762,7 +765,7 @@ theorem passes_pPath (p : Path) (h : pathOk p = true) : Passes (Print.pPath p) :
       have : Print.pPath (s :: t :: q) = .ident s :: ([.punct ':' true, .punct ':' false] ++ Print.pPath (t :: q)) := rfl
       rw [this]
       exact passes_cons (passes_ident (plainId_of_idOk h.1))
-        (passes_append (passes_joint2 (by decide) (by decide)) (ih (by simpa [pathOk] using h.2)))
+        (passes_append (passes_joint2 (by decide) (by decide) (by decide)) (ih (by simpa [pathOk] using h.2)))
 
 theorem passes_pUse (p : Path) (h : pathOk p = true) : Passes (Print.pUse p) :=
   passes_cons (kw "use") (passes_append (passes_pPath p h) (pu ';'))
